@@ -83,6 +83,7 @@ type fnTrans struct {
 	order []*ssa.BasicBlock
 	contract *FuncContract
 	closures map[ssa.Value]*ssa.MakeClosure
+	foreignLocks []foreignLock
 	sites    map[ssa.Instruction]string
 	siteState map[string]*State
 	abstracted []string
@@ -1143,12 +1144,16 @@ func (t *fnTrans) describe(v ssa.Value) string {
 		return t.describe(v.X) + ".(T)"
 	}
 	// fall back to a source name if one was recorded
+	best := ""
 	for n, vs := range t.names {
 		for _, x := range vs {
-			if x.v == v {
-				return n
+			if x.v == v && (best == "" || n < best) {
+				best = n
 			}
 		}
+	}
+	if best != "" {
+		return best
 	}
 	return "tmp"
 }
